@@ -109,7 +109,8 @@ struct Invocation {
     int kind = 0;                 // 0 checkForUpdatesIfDue, 1 performSelfUpdate
     std::string current;
     int64_t advanceSec = 0;       // clock step before this invocation (may be negative)
-    int env = 0;                  // 0 none, 1 BLOCH_NO_UPDATE_CHECK, 2 CI, 3 BLOCH_OFFLINE
+    int env = 0;                  // 0 none, 1 BLOCH_NO_UPDATE_CHECK, 2 CI, 3 BLOCH_OFFLINE; 4-6 the same variables present but empty, 7 "0"
+                                  // (the pinned code disables on presence, whatever the value)
     int tx = TX_OK;               // latest-release endpoint
     std::string tag;
     int diskFault = DF_NONE;      // applied to the cache file before this invocation
@@ -195,7 +196,7 @@ History generate(sim::Rng& g) {
         i.kind = g.chance(0.22) ? 1 : 0;
         i.current = g.chance(0.85) ? current : genVersion(g, true);
         i.advanceSec = k == 0 ? 0 : steps[g.below(15)];
-        i.env = g.chance(0.12) ? 1 + (int)g.below(3) : 0;
+        i.env = g.chance(0.12) ? 1 + (int)g.below(7) : 0;
         i.tx = g.chance(0.6) ? TX_OK : (int)g.below(TX_COUNT);
         i.tag = g.chance(0.7) ? pool[g.below(4)] : genVersion(g, true);
         if (g.chance(0.18)) { i.diskFault = 1 + (int)g.below(DF_COUNT - 1); i.faultArg = g.next(); }
@@ -339,7 +340,7 @@ Verdict runHistory(const History& h, Stats& st) {
     clk::nowNs = 1700000000LL * 1000000000LL;
     g_systemStub = true;
     int64_t lastNoticeSec = INT64_MIN;
-    bool throttleSuspended = false;  // after a disk fault / backward step, until the next successful save
+    bool throttleSuspended = false;  // after a disk fault, until the next successful save
     std::string prevContent;
     bool prevExisted = false;
     Verdict v;
@@ -348,7 +349,7 @@ Verdict runHistory(const History& h, Stats& st) {
         int64_t before = clk::nowNs / 1000000000LL;
         clk::nowNs += i.advanceSec * 1000000000LL;
         st.simSeconds += (double)std::llabs(i.advanceSec);
-        if (i.advanceSec < 0) throttleSuspended = true;
+        // a backward clock step does not suspend the throttle: a stamp that lies in the future is simply "inside the window"
         (void)before;
         undoStructuralFaults();
         if (i.diskFault != DF_NONE) {
@@ -364,6 +365,10 @@ Verdict runHistory(const History& h, Stats& st) {
         if (i.env == 1) setenv("BLOCH_NO_UPDATE_CHECK", "1", 1);
         if (i.env == 2) setenv("CI", "true", 1);
         if (i.env == 3) setenv("BLOCH_OFFLINE", "1", 1);
+        if (i.env == 4) setenv("BLOCH_NO_UPDATE_CHECK", "", 1);
+        if (i.env == 5) setenv("CI", "", 1);
+        if (i.env == 6) setenv("BLOCH_OFFLINE", "", 1);
+        if (i.env == 7) setenv("BLOCH_NO_UPDATE_CHECK", "0", 1);
         // transport script
         std::string asset = assetNameFor(i.tag);
         std::string bytes = assetBytes(i.assetSeed);
@@ -459,7 +464,7 @@ Verdict runHistory(const History& h, Stats& st) {
                 if (!fromTag && !fromCache) { v = {"notice_names_unknown_version", at + ": announced '" + named + "'"}; break; }
                 // (4) throttle
                 if (!throttleSuspended && lastNoticeSec != INT64_MIN && nowSec - lastNoticeSec < 72 * 3600) {
-                    v = {"notice_repeated_within_72h", at + ": previous notice " + std::to_string(nowSec - lastNoticeSec) + " s earlier, no disk fault or backward clock step in between"};
+                    v = {"notice_repeated_within_72h", at + ": previous notice " + std::to_string(nowSec - lastNoticeSec) + " s earlier, no disk fault in between"};
                     break;
                 }
                 lastNoticeSec = nowSec;
@@ -568,6 +573,8 @@ void runOne(const sim::Options& opt, uint64_t run, sim::RunReport& rep) {
     rep.count("upd.disk_faults_applied", st.faults);
     rep.count("upd.cache_torn_then_read", st.tornReads);
     rep.count("upd.kill_switch_invocations", st.killSwitch);
+    for (auto& i : h.inv) if (i.env >= 4) rep.count("upd.kill_switch_present_but_empty_or_zero");
+    for (auto& i : h.inv) if (i.advanceSec < 0) rep.count("upd.clock_stepped_backwards");
     rep.count("upd.downloads_accepted", st.accepted);
     rep.count("upd.checksum_mismatches_reported", st.mismatches);
     rep.count("upd.already_latest", st.alreadyLatest);
@@ -680,7 +687,7 @@ int main(int argc, char** argv) {
     cov.set("known_findings_hit", Json((unsigned long long)S.knownHits));
     cov.set("violation_details", S.details);
     ev.set("assumptions", Json::arrayOf(std::vector<std::string>{"a version parses iff, after an optional 'v', it starts with a digit run; up to three dot-separated runs are compared as arbitrary-precision integers; versions with a component above INT_MAX may be treated as unparsable by the code",
-                                                                 "the 72 h clause is suspended after a disk fault or a backward clock step until the next recorded notice", "announcing is judged only in the 'only if' direction: the property does not oblige the updater to print a notice"}));
+                                                                 "the 72 h clause is suspended after a disk fault until the next recorded notice (not after a backward clock step: a notice stamp in the future counts as inside the window)", "announcing is judged only in the 'only if' direction: the property does not oblige the updater to print a notice"}));
     sim::writeEvidence(opt, ev);
     sim::printSummary(S);
     printf("updsim done: runs=%llu distinct=%zu wall=%.1fs violations=%llu known=%llu exit=%d\n", (unsigned long long)R.runs, R.distinct.size(), R.wall, (unsigned long long)S.violations, (unsigned long long)S.knownHits, S.exitCode);
